@@ -59,6 +59,8 @@ def creation_script(rng, allow_est):
             # entries are reduced modulo the number of nodes
             st.append([rng.randrange(1000) for _ in range(rng.randint(1, 2))])
         steps.append(st)
+    if rng.random() < 0.12:
+        steps.append(["cgu"])
     rng.shuffle(steps)
     if rng.random() < 0.4:
         comp = [i for i, s in enumerate(steps) if s[0] == "feat"]
@@ -116,6 +118,21 @@ class World:
                         g.remove_node(nid)
                 o = ResidualGraphUpdater(d, g, remove_completed_machine_nodes=bool(st[2]),
                                          remove_completed_job_nodes=bool(st[3]))
+            elif st[0] == "cgu":
+                # a USER-WRITTEN graph updater (the documented extension point: subclass GraphUpdater, implement
+                # update): it adds the machine-order arc of every dispatched operation and removes nothing
+                from job_shop_lib.graphs.graph_updaters import GraphUpdater
+                from job_shop_lib.graphs import EdgeType
+
+                class MachineOrderUpdater(GraphUpdater):
+                    def update(self, scheduled_operation):
+                        row = self.dispatcher.schedule.schedule[scheduled_operation.machine_id]
+                        if len(row) >= 2:
+                            self.job_shop_graph.add_edge(row[-2].operation.operation_id,
+                                                         row[-1].operation.operation_id,
+                                                         type=EdgeType.DISJUNCTIVE)
+
+                o = MachineOrderUpdater(d, graphs.JobShopGraph(self.instance))
             elif st[0] == "composite":
                 o = CompositeFeatureObserver(d, feature_observers=[self.objs[i] for i in st[1]])
             else:
